@@ -115,12 +115,12 @@ theorem tx_atomic (env : Env) (db : Db) (prevCtx : Ctx) (tx : TxSpec)
     | err e => simp [rollback]
   | batch =>
     simp only [hm, dbBatch] at hne ⊢
-    cases hr : (attempt env false db (if tx.reuseCtx = true then prevCtx else Ctx.empty) tx.body).res with
+    cases hr : (attempt env true db (if tx.reuseCtx = true then prevCtx else Ctx.empty) tx.body).res with
     | ok => simp [hr, commit] at hne
     | err e =>
       simp only [hr] at hne ⊢
-      cases hr2 : (attempt env false db
-          (attempt env false db (if tx.reuseCtx = true then prevCtx else Ctx.empty) tx.body).st.ctx tx.body).res with
+      cases hr2 : (attempt env true db
+          (attempt env true db (if tx.reuseCtx = true then prevCtx else Ctx.empty) tx.body).st.ctx tx.body).res with
       | ok => simp [hr2, commit] at hne
       | err e2 => simp [rollback]
 
